@@ -1654,3 +1654,106 @@ Print Assumptions C04_wiring_StripeBaseSecondOrderMeasure_subtotal_values.
 
 End Wiring_C04.
 (* ---- WIRING-APPENDIX:END ---- *)
+
+(*BEGIN GenAgreeDimension_C04*)
+(* ------------------------------------------------------------------------------------ *)
+(* SOURCE TEXT of the id resolution of dimension.py.  Gen/DimensionSrc.v is regenerated on every check from
+   src/cr/cube/dimension.py (+ enums.py) by harness/translate/x_dimension.py (shallow translation: every member
+   as a Gallina function over the Python-semantics combinators of Base/PyList.v + Base/PyDict.v (JSON values) +
+   Model/PyDimension.v; `self.<member>` = the generated function of that member).  For ALL insertion dicts whose
+   term lists are lists of identifiers ([positive_abs] / [negative_abs] / [insdict_of]: Proofs/GenAgreeDimensionSubtotal.v)
+   and all Elements objects whose element ids are identifiers ([wf_elems]: Proofs/GenAgreeDimensionLib.v),
+   _build_element_id / Element.element_id / Elements.element_ids, _Subtotal.addend_ids / addend_idxs /
+   subtrahend_ids / subtrahend_idxs / is_difference and _Subtotals._element_ids / _iter_valid_subtotal_dicts ARE
+   [kept_ids] / [resolve] / [is_difference] / [valid_subtotal] of Model/SubtotalIds.v the theorems above are
+   about.  [None] = the member is outside the translator's whitelist (tied by the correspondence only). *)
+From CC Require Proofs.GenAgreeDimensionLib Proofs.GenAgreeDimensionSubtotal.
+Section GenAgreeDimension_C04.   (* scopes and imports below end with the section *)
+Import Coq.Lists.List Coq.ZArith.ZArith Coq.Strings.String Coq.Bool.Bool CC.Base.XQ CC.Base.Ident CC.Base.PyList
+       CC.Base.PyDict CC.Model.DimType CC.Model.PyDimension CC.Gen.DimensionSrc CC.Proofs.GenAgreeDimensionLib
+       CC.Proofs.GenAgreeDimensionSubtotal CC.Model.Subtotals CC.Model.SubtotalIds.
+Import Coq.Lists.List.ListNotations.
+Local Close Scope Q_scope.
+Local Open Scope Z_scope.
+
+Theorem C04_gen_dim_fn__build_element_id :
+  match src_fn__build_element_id with
+  | Some f => forall d t,
+      f (JDict d) t = of_option KeyError (jd_get d (JStr (element_id_key d t)))
+  | None => True end.
+Proof. exact gen_fn__build_element_id. Qed.
+Print Assumptions C04_gen_dim_fn__build_element_id.
+
+Theorem C04_gen_dim_Element_element_id :
+  match src_Element_element_id with
+  | Some f => forall e i, wf_elem e i -> f e = Ok (jv_of_ident i)
+  | None => True end.
+Proof. exact gen_Element_element_id. Qed.
+Print Assumptions C04_gen_dim_Element_element_id.
+
+Theorem C04_gen_dim_Elements_element_ids :
+  match src_Elements_element_ids with
+  | Some f => forall els ids, wf_elems els ids -> f els = Ok (map jv_of_ident ids)
+  | None => True end.
+Proof. exact gen_Elements_element_ids. Qed.
+Print Assumptions C04_gen_dim_Elements_element_ids.
+
+Theorem C04_gen_dim__Subtotal_addend_ids :
+  match src__Subtotal_addend_ids with
+  | Some f => forall d els ids pos, wf_elems els ids -> positive_abs d = Some pos ->
+      f (mkPySubtotal (JDict d) els) = Ok (map jv_of_ident (kept_ids ids pos))
+  | None => True end.
+Proof. exact gen__Subtotal_addend_ids. Qed.
+Print Assumptions C04_gen_dim__Subtotal_addend_ids.
+
+Theorem C04_gen_dim__Subtotal_subtrahend_ids :
+  match src__Subtotal_subtrahend_ids with
+  | Some f => forall d els ids neg, wf_elems els ids -> negative_abs d = Some neg ->
+      f (mkPySubtotal (JDict d) els) = Ok (map jv_of_ident (kept_ids ids neg))
+  | None => True end.
+Proof. exact gen__Subtotal_subtrahend_ids. Qed.
+Print Assumptions C04_gen_dim__Subtotal_subtrahend_ids.
+
+Theorem C04_gen_dim__Subtotal_addend_idxs :
+  match src__Subtotal_addend_idxs with
+  | Some f => forall d els ids pos, wf_elems els ids -> positive_abs d = Some pos ->
+      f (mkPySubtotal (JDict d) els) = Ok (map Z.of_nat (resolve ids pos))
+  | None => True end.
+Proof. exact gen__Subtotal_addend_idxs. Qed.
+Print Assumptions C04_gen_dim__Subtotal_addend_idxs.
+
+Theorem C04_gen_dim__Subtotal_subtrahend_idxs :
+  match src__Subtotal_subtrahend_idxs with
+  | Some f => forall d els ids neg, wf_elems els ids -> negative_abs d = Some neg ->
+      f (mkPySubtotal (JDict d) els) = Ok (map Z.of_nat (resolve ids neg))
+  | None => True end.
+Proof. exact gen__Subtotal_subtrahend_idxs. Qed.
+Print Assumptions C04_gen_dim__Subtotal_subtrahend_idxs.
+
+Theorem C04_gen_dim__Subtotal_is_difference :
+  match src__Subtotal_is_difference with
+  | Some f => forall d els ids neg, wf_elems els ids -> negative_abs d = Some neg ->
+      f (mkPySubtotal (JDict d) els) = Ok (negb (is_nil (kept_ids ids neg)))
+  | None => True end.
+Proof. exact gen__Subtotal_is_difference. Qed.
+Print Assumptions C04_gen_dim__Subtotal_is_difference.
+
+Theorem C04_gen_dim__Subtotals__element_ids :
+  match src__Subtotals__element_ids with
+  | Some f => forall js els fv ids, wf_elems els ids ->
+      f (mkPySubtotals js els fv) = Ok (map jv_of_ident ids)
+  | None => True end.
+Proof. exact gen__Subtotals__element_ids. Qed.
+Print Assumptions C04_gen_dim__Subtotals__element_ids.
+
+Theorem C04_gen_dim__Subtotals__iter_valid_subtotal_dicts :
+  match src__Subtotals__iter_valid_subtotal_dicts with
+  | Some f => forall jsv js els fv ids, wf_elems els ids -> pj_iter jsv = Ok js ->
+      Forall (fun j => insdict_of j <> None) js ->
+      f (mkPySubtotals jsv els fv) = Ok (filter (valid_jv ids) js)
+  | None => True end.
+Proof. exact gen__Subtotals__iter_valid_subtotal_dicts. Qed.
+Print Assumptions C04_gen_dim__Subtotals__iter_valid_subtotal_dicts.
+
+End GenAgreeDimension_C04.
+(*END GenAgreeDimension_C04*)
